@@ -328,9 +328,13 @@ class JSRegExp(JSObject):
 
     def __init__(self, pattern: str, flags: str = "", poll_callback=None):
         super().__init__()
-        from .regex import RegExp as InternalRegExp, MatchResult
+        from .errors import JSSyntaxError
+        from .regex import RegExp as InternalRegExp, RegExpError
 
-        self._internal = InternalRegExp(pattern, flags, poll_callback)
+        try:
+            self._internal = InternalRegExp(pattern, flags, poll_callback)
+        except RegExpError as e:
+            raise JSSyntaxError(f"Invalid regular expression: /{pattern}/: {e}")
         self._pattern = pattern
         self._flags = flags
 
